@@ -657,7 +657,7 @@ pub fn run(ctx: &mut Ctx, r: &mut Rng, tier: &str) {
         if sc.net.validate().is_err() { ctx.count("c04.net_invalid"); continue; }
         run_scen(ctx, &sc, seed, false);
     }
-    let nt: usize = std::env::var("C04_NT").ok().and_then(|x| x.parse().ok()).unwrap_or(if tier == "thorough" { 16 } else { 2 });
+    let nt: usize = std::env::var("C04_NT").ok().and_then(|x| x.parse().ok()).unwrap_or(if tier == "thorough" { 100 } else { 12 });
     for _ in 0..nt {
         let mut rr = r.fork();
         let seed = rr.0;
